@@ -283,6 +283,12 @@ func c20cases(c *Ctx) []c20case {
 			}
 		case *client.SendTx:
 			txRange(enc, x.Tx)
+		case *client.PostMerkleProofs:
+			if len(x.MerkleProofs) > 0 {
+				txFrom, txTo = 2, len(enc) // the proofs are decoded by the merkle_proof dependency
+			} else {
+				txRange(enc, nil)
+			}
 		default:
 			txRange(enc, nil)
 		}
@@ -408,6 +414,10 @@ func c20class(cs c20case) string {
 			case client.MessageTypeSaveTxs, client.MessageTypeSendExpandedTx:
 				if inRegion {
 					dep = "bsor"
+				}
+			case client.MessageTypePostMerkleProofs:
+				if inRegion {
+					dep = "merkle_proof"
 				}
 			}
 		}
